@@ -3,3 +3,5 @@ import AdaptiveModel.Runner
 import AdaptiveModel.Drv.Util
 import AdaptiveModel.Drv.Seq
 import AdaptiveModel.Drv.Runner
+import AdaptiveModel.SaveFs
+import AdaptiveModel.Drv.SaveFs
